@@ -72,7 +72,11 @@ def generate(seed, tier="quick"):
                                      "n_tests": (1, 3), "styles": ["assert", "rec"], "hand": 0.3, "layout": False, "places": ["direct", "direct", "func", "module", "helper_arg"]})
     frng = sub(seed, "flags")
     steps = [frng.choice([["create", "fix"], list(CATS), ["fix"], ["create"], ["fix", "trim"], ["update"]]) for _ in range(frng.choice([1, 1, 2]))]
-    return {"program": prog, "black": draw_mode(sub(seed, "mode")), "steps": steps, "clean": sub(seed, "clean").random() < 0.75}
+    lrng = sub(seed, "layout")
+    # the test files live in a sub-package with its own pyproject.toml that has no [tool.black] table: the project's options are still the ones of the
+    # pyproject.toml in the directory pytest was started in (black skips files without its table)
+    subdir = lrng.choice(['[project]\nname = "pkg"\nversion = "1"\n', '[tool.isort]\nprofile = "black"\n', "", None]) if lrng.random() < 0.3 else None
+    return {"program": prog, "black": draw_mode(sub(seed, "mode")), "steps": steps, "clean": sub(seed, "clean").random() < 0.75, "subdir": subdir}
 
 
 def execute(case, ctx):
@@ -97,6 +101,10 @@ def execute(case, ctx):
                     out["discards"]["black-cannot-format-the-generated-file"] = 1
                     return out
     files["pyproject.toml"] = sim.pyproject_for(black=opts)
+    if case.get("subdir") is not None:
+        files = {(k if k == "pyproject.toml" else "pkg/" + k): v for k, v in files.items()}
+        files["pkg/pyproject.toml"] = case["subdir"]
+        ctx.count("probe_subpackage_with_own_pyproject")
     cur = sim.to_bytes(files)
     for si, cats in enumerate(case["steps"]):
         flags = ",".join(["report"] + sorted(cats))
@@ -105,7 +113,7 @@ def execute(case, ctx):
             out["discards"]["session-did-not-complete(C18)"] = 1
             return out
         ctx.count("clauses_checked")
-        for fn in sorted(k for k in cur if k.startswith("test_")):
+        for fn in sorted(k for k in cur if k.rsplit("/", 1)[-1].startswith("test_")):
             if new.get(fn) == cur[fn]:
                 continue
             old_t, new_t = cur[fn].decode("utf-8"), new[fn].decode("utf-8")
@@ -148,7 +156,7 @@ def execute(case, ctx):
                          f"step {si} {fn} flags={flags} [tool.black]={opts}: the file was not formatter-clean, yet its layout changed outside the edited arguments (offset {pos})\n"
                          f"--- before\n{a[max(0, pos - 150): pos + 150]!r}\n--- after\n{b[max(0, pos - 150): pos + 150]!r}")
         cur = new
-    out["sample"] = {"black": opts, "steps": case["steps"], "clean": case.get("clean"), "file": files[prog["files"][0]["name"]][:500]}
+    out["sample"] = {"black": opts, "steps": case["steps"], "clean": case.get("clean"), "file": files[("pkg/" if case.get("subdir") is not None else "") + prog["files"][0]["name"]][:500]}
     return out
 
 
@@ -158,6 +166,8 @@ def shrink(case):
             yield dict(case, steps=case["steps"][:i] + case["steps"][i + 1:])
     for p in W.shrink_program(case["program"]):
         yield dict(case, program=p)
+    if case.get("subdir") is not None:
+        yield dict(case, subdir=None)
     for k in list(case["black"]):
         b = dict(case["black"])
         del b[k]
